@@ -296,3 +296,73 @@ def gen_run_scenario(rng, feats, cycles=None):
         ops.append(['do', 0, ['stopMgr', 0, r.choice(codes)]])      # stop on a manager that is not running
         ops.append(['tick', 0])
     return {'tmpls': g.tmpls, 'progs': g.progs, 'comps': g.comps, 'ops': ops, 'fuel': 60000}
+
+
+# ------------------------------------------------------------------------------------------
+# directed patterns (C01 / C07): "act as root -> become child -> gain descendants or handlers -> detach -> dispatch"
+# ------------------------------------------------------------------------------------------
+
+def gen_detach_pattern(rng):
+    """a component dispatches as a root (warm cache), is registered elsewhere, its subtree changes while it is
+    attached, it is unregistered again and dispatches as a root once more: the live handler set must be used"""
+    r = rng
+    names = [1, 2]
+    tmpls = [{'name': str(n), 'flags': '', 'sc': None, 'cc': None} for n in names]
+    progs = [[], [['ret', 5]]]
+    ncomp = r.randint(3, 4)
+    comps = []
+    for ci in range(ncomp):
+        hs = []
+        for n in names:
+            if r.random() < 0.7:
+                hs.append({'names': [str(n)], 'chan': None, 'prio': r.choice([0, 0, 1]), 'prog': r.randrange(2),
+                           'installed': r.random() < 0.75})
+        if not hs:
+            hs.append({'names': ['1'], 'chan': None, 'prio': 0, 'prog': 0, 'installed': True})
+        comps.append({'chan': '*', 'handlers': hs, 'timer': None})
+    hid = 0
+    dyn = {}
+    for ci, c in enumerate(comps):
+        for h in c['handlers']:
+            if not h['installed']:
+                dyn.setdefault(ci, []).append(hid)
+            hid += 1
+        hid += 1
+    a = 0                      # the component that changes role
+    host = 1                   # where it is registered meanwhile
+    others = list(range(2, ncomp))
+    ops = []
+
+    def fire_and_tick(c):
+        for n in r.sample(names, r.randint(1, 2)):
+            ops.append(['do', c, ['fire', names.index(n), r.choice([None, '*']), 0, False]])
+        ops.append(['quiesce', c])
+
+    if r.random() < 0.8:
+        fire_and_tick(a)                      # first life as a root: warms its cache
+    ops.append(['maybe_reg', a, host])
+    ops.append(['quiesce', host])
+    for _ in range(r.randint(1, 3)):           # changes while attached
+        x = r.random()
+        if x < 0.5 and others:
+            ops.append(['maybe_reg', r.choice(others), a])
+        elif x < 0.8 and dyn.get(a):
+            ops.append(['do', a, ['addH', r.choice(dyn[a])]])
+        elif dyn:
+            ci = r.choice(list(dyn))
+            ops.append(['do', ci, ['addH', r.choice(dyn[ci])]])
+        if r.random() < 0.5:
+            fire_and_tick(host)
+    ops.append(['do', a, ['unreg', a]])
+    ops.append(['quiesce', host])
+    fire_and_tick(a)                          # second life as a root
+    if r.random() < 0.5:
+        for o in others:
+            if r.random() < 0.5:
+                ops.append(['do', o, ['unreg', o]])
+                ops.append(['quiesce', a])
+                ops.append(['quiesce', host])
+        fire_and_tick(a)
+    for c in range(ncomp):
+        ops.append(['quiesce', c])
+    return {'tmpls': tmpls, 'progs': progs, 'comps': comps, 'ops': ops}
